@@ -497,9 +497,60 @@ where
 	}
 }
 
+/// Sequences OF holders must encode like the sequence of plain values.
+fn holder_sequences<T>(tname: &'static str, rng: &mut Rng, n: u64, rep: &mut Report)
+where
+	T: Modelled + Encode + Clone + EncodeLike,
+{
+	let vty = <Vec<T>>::ty();
+	for _ in 0..n {
+		let len = *rng.pick(&[0usize, 1, 2, 3, 5, 8, 17, 33]);
+		let vals: Vec<T> = (0..len).map(|_| gen_of(rng)).collect();
+		let want = spec_encode(&vty, &vals.to_val());
+		rep.evaluations += 1;
+		rep.count("holder_sequence_cases");
+		if want.len() >= 2 {
+			rep.nontrivial(hash64(&(tname, "hseq", &want)));
+		}
+		let refs: Vec<&T> = vals.iter().collect();
+		let boxes: Vec<Box<T>> = vals.iter().cloned().map(Box::new).collect();
+		let rcs: VecDeque<Rc<T>> = vals.iter().cloned().map(Rc::new).collect();
+		let arcs: Vec<Arc<T>> = vals.iter().cloned().map(Arc::new).collect();
+		let cows: Vec<Cow<'_, T>> = vals.iter().map(Cow::Borrowed).collect();
+		let mut forms: Vec<(&str, Vec<u8>)> = vec![
+			("Vec<&T>", refs.encode()),
+			("&[&T]", (&refs[..]).encode()),
+			("Vec<Box<T>>", boxes.encode()),
+			("VecDeque<Rc<T>>", rcs.encode()),
+			("Vec<Arc<T>>", arcs.encode()),
+			("Vec<Cow<T>>", cows.encode()),
+			("Vec<&&T>", refs.iter().collect::<Vec<&&T>>().encode()),
+		];
+		if len == 3 {
+			let a: [Rc<T>; 3] = [Rc::new(vals[0].clone()), Rc::new(vals[1].clone()), Rc::new(vals[2].clone())];
+			let mut arr_want = Vec::new();
+			for v in &vals {
+				arr_want.extend_from_slice(&spec_encode(&T::ty(), &v.to_val()));
+			}
+			if a.encode() != arr_want {
+				differ(rep, &format!("holder-sequence:[Rc<T>;3]:{tname}"), format!("[Rc<{tname}>; 3]"), &a.encode(), &arr_want, "holders");
+			}
+			let b: [&T; 3] = [&vals[0], &vals[1], &vals[2]];
+			if b.encode() != arr_want {
+				differ(rep, &format!("holder-sequence:[&T;3]:{tname}"), format!("[&{tname}; 3]"), &b.encode(), &arr_want, "holders");
+			}
+		}
+		for (form, got) in forms.drain(..) {
+			if got != want {
+				differ(rep, &format!("holder-sequence:{form}:{tname}"), format!("{form} with T = {tname}, {len} elements"), &got, &want, "holders");
+			}
+		}
+	}
+}
+
 pub fn c06(ctx: &Ctx) {
 	let mut rep = Report::new("C06");
-	let rounds = ctx.budget(400, 8000);
+	let rounds = ctx.budget(2500, 40_000);
 	let mut job = 0usize;
 	let mut mine = |job: &mut usize| {
 		let m = *job % ctx.nshards == ctx.shard;
@@ -518,7 +569,16 @@ pub fn c06(ctx: &Ctx) {
 			}
 		)*}
 	}
-	deques!(u8, i8, u16, i16, u32, i32, u64, i64, u128, i128, f32, f64, String, (u8, u16), (), Option<u32>);
+	deques!(u8, i8, u16, i16, u32, i32, u64, i64, u128, i128, f32, f64, String, (u8, u16), (), Option<u32>, Only, Marker, [u8; 3], BeU32);
+	macro_rules! hseq {
+		($($t:ty),*) => {$(
+			if mine(&mut job) {
+				let mut rng = ctx.rng_for(concat!("hseq:", stringify!($t)));
+				holder_sequences::<$t>(stringify!($t), &mut rng, rounds * 2, &mut rep);
+			}
+		)*}
+	}
+	hseq!(u8, i8, u16, i16, u32, i32, u64, i64, u128, i128, f32, f64, bool, String, Only, (u8, u16));
 	if mine(&mut job) {
 		string_histories(&mut ctx.rng_for("string"), rounds * 10, &mut rep);
 	}
